@@ -83,15 +83,11 @@ def decoy_text(schema) -> str:
 
 
 def retry_primed(fn, what):
-    """Replay wrapper: fresh first; if not reproduced and the payload carries a decoy, prime and replay again."""
+    """Replay wrapper: in a --primed replay process the decoy is processed first (before anything else touched the
+    code under test), then the counterexample."""
     def wrapped(d):
-        r = fn(d)
-        if r[0] or not d.get("decoy_text"):
-            return r
-        prime(d["decoy_text"], what)
-        r2 = fn(d)
-        if r2[0]:
-            return True, "after processing a same-named but different schema first in the same process: " + r2[1]
-        return r
+        if d.get("_primed") and d.get("decoy_text"):
+            prime(d["decoy_text"], what)
+        return fn(d)
     wrapped.__name__ = getattr(fn, "__name__", "replay")
     return wrapped
